@@ -11,3 +11,4 @@ import FastQr.Props.C09
 import FastQr.Props.C10
 import FastQr.Props.C11
 import FastQr.Props.C15
+import FastQr.Props.C16
